@@ -14,7 +14,8 @@ def cred_choices(fmt):
     if fmt == "fido-u2f":
         return [("p256", 1, core.ES256), ("p256lz", 0, core.ES256)]
     if fmt == "tpm":
-        return [("rsa", 0, core.RS256), ("rsa", 1, core.RS1), ("p256", 0, core.ES256), ("p384", 0, core.ES256), ("p521", 0, core.ES512)]
+        return [("rsa", 0, core.RS256), ("rsa", 1, core.RS1), ("p256", 0, core.ES256), ("p384", 0, core.ES256), ("p521", 0, core.ES512),
+                ("rsa3", 0, core.RS256)]
     if fmt in ("apple", "android-key"):
         return [("p256", 0, core.ES256), ("p384", 0, core.ES256), ("rsa", 2, core.RS256), ("p256lz", 1, core.ES256)]
     if fmt == "android-safetynet":
@@ -22,9 +23,9 @@ def cred_choices(fmt):
     return [(k, 0, a) for k, a in core.CRED_KINDS] + [("p256lz", 0, core.ES256), ("p521lz", 0, core.ES512)]
 
 
-def make_cred(choice, rng=None, cred_id=None):
+def make_cred(choice, rng=None, cred_id=None, aaguid=None):
     kind, idx, alg = choice
-    c = core.make_credential(kind, idx, alg, cred_id=cred_id)
+    c = core.make_credential(kind, idx, alg, cred_id=cred_id, aaguid=aaguid)
     return c
 
 
@@ -38,11 +39,18 @@ def expectation(req, roots, **over):
 def build(fmt, choice, faults=(), **kw):
     """returns (request, result) or None when the fault does not apply to these keys"""
     cred_id = kw.pop("cred_id", None)
-    req = attest.RegRequest(fmt=fmt, cred=make_cred(choice, cred_id=cred_id), faults=set(faults), **kw)
+    aaguid = kw.pop("aaguid", None)
+    if fmt == "fido-u2f":
+        aaguid = None       # U2F demands the zero AAGUID
+    req = attest.RegRequest(fmt=fmt, cred=make_cred(choice, cred_id=cred_id, aaguid=aaguid), faults=set(faults), **kw)
     try:
         return req, attest.build_registration(req)
     except attest.NotApplicable:
         return None
+    except (AttributeError, TypeError, KeyError):
+        if len(req.faults) + len(req.chain_faults) > 1:
+            return None     # a combination of faults the simulator cannot build consistently
+        raise
 
 
 def first_false(conj):
